@@ -5,7 +5,7 @@ import nv
 import numgen
 
 UN_SRC = {"neg": "(-(%s))", "~": "(~(%s))", "abs": "abs(%s)", "signum": "signum(%s)", "even": "even(%s)",
-          "odd": "odd(%s)"}
+          "odd": "odd(%s)", "is_prime": "is_prime(%s)"}
 WORD_MIN, WORD_MAX = -2 ** 63, 2 ** 63 - 1
 
 
@@ -28,7 +28,7 @@ def app_src(op, arity, a_src, b_src):
 
 def run(rep, tier, wd):
     cfg = "MC_IntRep_quick.cfg" if tier == "quick" else "MC_IntRep_thorough.cfg"
-    r = nv.run_tlc("MC_IntRep", cfg, wd, workers=nv.JOBS, timeout=3000)
+    r = nv.run_tlc("MC_IntRep", cfg, wd, workers=nv.JOBS, timeout=5400)
     if not r["ok"]:
         if "is violated" in r["error"]:
             rep.mismatch("spec:MC_IntRep:invariant", "TLC found an invariant violation in the specification itself",
